@@ -18,14 +18,14 @@ import (
 func init() {
 	Register(&Engine{
 		Name: "c10", Prop: "C10",
-		Rule: "case = (reference tree rooted or not, 1..10 bootstrap trees on the same 4..10 taxa (binary or multifurcating, a few rooted), optional " +
+		Rule: "case = (reference tree rooted or not, 1..10 bootstrap trees on the same 4..16 (sometimes 60..130) taxa (binary or multifurcating, a few rooted), optional " +
 			"taxon-mismatched tree (foreign / missing / extra taxon) at a drawn position, feed, thread count, schedule, TBE options, a second copy of the " +
 			"collection in another order, rooting and child order); FBP and TBE both run on the collection (one under the drawn schedule and thread count), " +
 			"then on the re-ordered copy. Oracle: brute-force split membership and Hamming/transfer distances on the independent reference model. " +
 			"Non-trivial: some inner reference branch has 0 < FBP < 1 and FBP < TBE < 1; distinct = distinct (reference text, bootstrap texts)",
 		Gen: func(rt *rapid.T, tier string) any {
 			pc := genPipe(rt, tier, pipeGenOpts{algos: []string{"fbp", "tbe"}, faults: true, faultKinds: []string{"foreign", "missing", "extra"},
-				minTax: 4, maxTax: 10, maxTrees: 10, rootedRef: true, rootedRecs: true})
+				minTax: 4, maxTax: 16, maxTrees: 10, rootedRef: true, rootedRecs: true})
 			pc.Recs2 = genRecs2(rt, pc.Recs, true)
 			return pc
 		},
